@@ -443,6 +443,11 @@ impl<'a> Outbound<'a> {
     }
 
     pub(super) fn arm_replay(&mut self) {
+        // A queued keep-alive probe belongs to the connection it was queued on: the next
+        // connection negotiates its own keep-alive (possibly none) and starts its own timer.
+        self.pending_control
+            .retain(|entry| !matches!(entry.action, ControlAction::PingReq));
+
         if !self.has_pending_state() {
             return;
         }
